@@ -71,8 +71,48 @@ def _cm_class_lock_attrs(w: ast.With, recv="self"):
         mod = parent(mod)
     if mod is None:
         return out
+    def manager_classes():
+        return {c.name: c for c in mod.body if isinstance(c, ast.ClassDef)}
+
+    def lock_passed_directly(e):
+        """`K(self.L)`: the manager is handed the lock itself and acquires / releases what it was given"""
+        if not (isinstance(e, ast.Call) and isinstance(e.func, ast.Name) and len(e.args) == 1 and isinstance(e.args[0], ast.Attribute)
+                and isinstance(e.args[0].value, ast.Name) and e.args[0].value.id == recv):
+            return []
+        c = manager_classes().get(e.func.id)
+        if c is None:
+            return []
+        ms = {m.name: m for m in c.body if isinstance(m, ast.FunctionDef)}
+        if not all(k in ms for k in ("__init__", "__enter__", "__exit__")):
+            return []
+        params = [a.arg for a in ms["__init__"].args.args[1:]]
+        stored = [t.attr for n in ast.walk(ms["__init__"]) if isinstance(n, (ast.Assign, ast.AnnAssign)) for t in (n.targets if isinstance(n, ast.Assign) else [n.target])
+                  if isinstance(t, ast.Attribute) and isinstance(n.value, ast.Name) and n.value.id in params]
+        acq = any(isinstance(n, ast.Call) and isinstance(n.func, ast.Attribute) and n.func.attr == "acquire" and isinstance(n.func.value, ast.Attribute) and n.func.value.attr in stored for n in ast.walk(ms["__enter__"]))
+        rel = any(isinstance(n, ast.Call) and isinstance(n.func, ast.Attribute) and n.func.attr == "release" and isinstance(n.func.value, ast.Attribute) and n.func.value.attr in stored for n in ast.walk(ms["__exit__"]))
+        return [e.args[0].attr] if acq and rel else []
+
+    def through_method(e):
+        """`self.m()` where m only returns a manager built on self / on one of self's locks"""
+        if not (isinstance(e, ast.Call) and isinstance(e.func, ast.Attribute) and isinstance(e.func.value, ast.Name) and e.func.value.id == recv and not e.args):
+            return None
+        cls = parent(w)
+        while cls is not None and not isinstance(cls, ast.ClassDef):
+            cls = parent(cls)
+        if cls is None:
+            return None
+        for m in cls.body:
+            if isinstance(m, ast.FunctionDef) and m.name == e.func.attr:
+                rets = [n.value for n in ast.walk(m) if isinstance(n, ast.Return) and n.value is not None]
+                if len(rets) == 1 and isinstance(rets[0], ast.Call):
+                    return rets[0]
+        return None
     for it in w.items:
         e = it.context_expr
+        inner = through_method(e)
+        if inner is not None:
+            e = inner
+        out.extend(lock_passed_directly(e))
         if isinstance(e, ast.Call) and isinstance(e.func, ast.Name) and len(e.args) == 1 and isinstance(e.args[0], ast.Name) and e.args[0].id == recv:
             key = (id(mod), e.func.id)
             if key not in _CM_CACHE:
